@@ -184,6 +184,8 @@ type Handler struct {
 	parser                  *sqlparser.Parser
 	protocolState           *ProtocolState
 	registry                *PreparedStatementRegistry
+	// statements that received a part of their parameters through COM_STMT_SEND_LONG_DATA since the last execute/reset
+	longDataStatements map[uint32]struct{}
 }
 
 // NewMysqlProxy returns new Handler
@@ -212,6 +214,7 @@ func NewMysqlProxy(session base.ClientSession, parser *sqlparser.Parser, setting
 		parser:                  parser,
 		protocolState:           NewProtocolState(),
 		registry:                NewPreparedStatementRegistry(),
+		longDataStatements:      make(map[uint32]struct{}),
 	}, nil
 }
 
@@ -459,8 +462,22 @@ func (handler *Handler) ProxyClientConnection(ctx context.Context, errCh chan<- 
 			break
 		case CommandStatementClose, CommandStatementSendLongData:
 			clientLog.Debugln("Close|SendLongData command")
+			// https://dev.mysql.com/doc/dev/mysql-server/latest/page_protocol_com_stmt_send_long_data.html
+			// both packets start with the statement id
+			if len(data) >= 4 {
+				stmtID := binary.LittleEndian.Uint32(data)
+				if cmd == CommandStatementSendLongData {
+					handler.longDataStatements[stmtID] = struct{}{}
+				} else {
+					delete(handler.longDataStatements, stmtID)
+				}
+			}
 		case CommandStatementReset:
 			clientLog.Debugln("Reset Request Statement")
+			// COM_STMT_RESET discards the data accumulated with COM_STMT_SEND_LONG_DATA
+			if len(data) >= 4 {
+				delete(handler.longDataStatements, binary.LittleEndian.Uint32(data))
+			}
 			handler.setQueryHandler(handler.ResetStatementResponseHandler)
 		default:
 			clientLog.Debugf("Command %d not supported now", cmd)
@@ -536,6 +553,14 @@ func (handler *Handler) handleStatementExecute(ctx context.Context, packet *Pack
 		preparedStmt := stmtItem.Statement()
 		paramsNumber = preparedStmt.ParamsNum()
 		statement = preparedStmt.Query()
+	}
+
+	// Values of parameters sent beforehand with COM_STMT_SEND_LONG_DATA are absent from the execute packet,
+	// so the value block cannot be parsed by position; forward such packet as is.
+	if _, ok := handler.longDataStatements[stmtID]; ok {
+		delete(handler.longDataStatements, stmtID)
+		log.Warningln("Statement has parameters sent with COM_STMT_SEND_LONG_DATA: bound values are forwarded without processing")
+		return stmtID, nil
 	}
 
 	// https://dev.mysql.com/doc/dev/mysql-server/latest/page_protocol_com_stmt_execute.html
